@@ -194,7 +194,7 @@ def rule_forget(ctx):
                 bad = True
                 continue
             w = pa.world
-            cl = [show(x) for x in w.router.attrs["clients"].items]
+            cl = [show(x) for x in w.table("clients").items]
             br = w.policy_snapshot()
             exp_cl = [c for c in ("client0", "client1") if c != f"client{who}"]
             exp_br = {k: v for k, v in {"client0": {"'A'": "'Also'"}, "client1": {"'A'": "'Only'"}}.items() if k != f"client{who}"}
@@ -207,7 +207,7 @@ def rule_forget(ctx):
     # stale policy entry without a client entry, and client entry without policy entry
     def wf3():
         w = World(p, 2, 1, {0: {"A": "Also"}}, registered=[0])
-        w.router.attrs["blob_routing"].set(w.clients[1], Dct([(Const("A"), Const("Only"))]))
+        w.table("blob_routing").set(w.clients[1], Dct([(Const("A"), Const("Only"))]))
         return w
 
     _, paths = run_router(p, wf3, "unregister_client", lambda w: ([w.clients[1]], {}))
@@ -226,7 +226,7 @@ def rule_reset(ctx):
     def wf():
         w = World(p, 2, 1, {0: {"A": "Also"}}, registered=[0])
         # a stale policy for the client that is about to (re)register
-        w.router.attrs["blob_routing"].set(w.clients[1], Dct([(Const("A"), Const("Only"))]))
+        w.table("blob_routing").set(w.clients[1], Dct([(Const("A"), Const("Only"))]))
         return w
 
     _, paths = run_router(p, wf, "register_client", lambda w: ([w.clients[1]], {}))
@@ -236,7 +236,7 @@ def rule_reset(ctx):
         if pa.outcome != "return":
             ok = False
             continue
-        cl = [show(x) for x in pa.world.router.attrs["clients"].items]
+        cl = [show(x) for x in pa.world.table("clients").items]
         br = pa.world.policy_snapshot()
         if cl != ["client0", "client1"] or br.get("client1") != {} or br.get("client0") != {"'A'": "'Also'"}:
             ok = False
